@@ -222,7 +222,7 @@ def main():
     os.makedirs(os.path.join(VERIF, 'replays'), exist_ok=True)
 
     # --- 1. theorems
-    judge_targets = ['theories/Judge/%s_judge.vo' % getattr(mod, 'JUDGE', prop)]
+    judge_targets = ['theories/Judge/%s_judge.vo' % j for j in [getattr(mod, 'JUDGE', prop)] + list(getattr(mod, 'EXTRA_JUDGES', []))]
     okj, logj = make(judge_targets)
     if not okj:
         print(logj[-4000:])
